@@ -11,7 +11,11 @@ class InfraError(Exception):
     pass
 
 
-def run_harness_sess(hbin, script_path, out_path, timeout=60):
+HANGS = {"n": 0}
+MAX_HANGS = 6
+
+
+def run_harness_sess(hbin, script_path, out_path, timeout=25):
     """Run a session script, following restarts. Returns 'ok' | 'abort' (the package panicked) | raises InfraError."""
     for p in (out_path, out_path + ".state", out_path + ".state.in"):
         if os.path.exists(p):
@@ -34,8 +38,9 @@ def run_harness_sess(hbin, script_path, out_path, timeout=60):
             except subprocess.TimeoutExpired:
                 # the virtual clock can (rarely) hang; retry the segment from a clean transcript position
                 tries += 1
-                if tries >= 3:
-                    raise InfraError("harness timed out 3 times on " + script_path)
+                if tries >= 2 or HANGS["n"] >= MAX_HANGS:
+                    HANGS["n"] += 1
+                    raise InfraError("hang: the harness did not finish within %d s of real time (%d attempts)" % (timeout, tries))
                 with open(out_path, "r+b") as f:
                     f.truncate(size0)
         if p.returncode == 42:
@@ -244,6 +249,10 @@ class Result:
 
 def run_one(hbin, workdir, name, script, with_model=True):
     r = Result(name, script)
+    if HANGS["n"] >= MAX_HANGS:
+        r.status = "infra"
+        r.error = "skipped: the harness hangs on this tree"
+        return r
     sp = os.path.join(workdir, name + ".script")
     op = os.path.join(workdir, name + ".impl")
     mp = os.path.join(workdir, name + ".model")
